@@ -31,6 +31,32 @@ def clip_family():
                         {"d": 2, "tag": tb, "id": "", "at": [["clip-rule", rb, 1]], "g": gb, "ref": ""},
                         {"d": 1, "tag": "rect", "id": "", "at": [["fill", "red", 0], ["clip-path", "c1", 0]],
                          "g": [0, 0, 16, 16, -1, -1], "ref": ""}]})
+    # a clipPath that is itself clipped, referenced from an element under a transform of its own or
+    # of an ancestor: the inner clip lives in the same (referencing) user space as the outer one
+    tfs = [[["translate", 3, 1]], [["scale", 1, 1, 2]], [["rotate", 90, 8, 8]], [["matrix", 1, 1, -1, 1, 8, 0]]]
+    inner = [("rect", [4, 4, 8, 8, -1, -1]), ("circle", [8, 8, 5]), ("polygon", [8, 1, 15, 8, 8, 15, 1, 8])]
+    for tf in tfs:
+        for (ti, gi) in inner:
+            for where in ("own", "ancestor", "clippath"):
+                nodes = [
+                    {"d": 1, "tag": "clipPath", "id": "ci", "at": [], "g": [], "ref": ""},
+                    {"d": 2, "tag": ti, "id": "", "at": [], "g": gi, "ref": ""},
+                    {"d": 1, "tag": "clipPath", "id": "co",
+                     "at": [["clip-path", "ci", 0]] + ([["transform", tf, 0]] if where == "clippath" else []),
+                     "g": [], "ref": ""},
+                    {"d": 2, "tag": "rect", "id": "", "at": [], "g": [2, 2, 12, 12, -1, -1], "ref": ""}]
+                target = {"d": 1, "tag": "rect", "id": "", "g": [0, 0, 16, 16, -1, -1], "ref": "",
+                          "at": [["fill", "red", 0], ["clip-path", "co", 0]]}
+                if where == "own":
+                    target["at"].append(["transform", tf, 0])
+                    nodes.append(target)
+                elif where == "ancestor":
+                    nodes.append({"d": 1, "tag": "g", "id": "", "at": [["transform", tf, 0]], "g": [], "ref": ""})
+                    target["d"] = 2
+                    nodes.append(target)
+                else:
+                    nodes.append(target)
+                docs.append({"vb": [0, 0, 16, 16], "view": [0, 0, 16, 16], "root": [], "nodes": nodes})
     return docs
 
 
